@@ -3,17 +3,30 @@
 (* and of what recovery reads back after a PROCESS crash (user-space buffers and memory are   *)
 (* lost, everything handed to the kernel survives).                                           *)
 (*                                                                                            *)
-(*   db_write.go commitWorker:  vlog.write -> applyRequests -> [SyncWrites: wal.Sync] -> ack   *)
+(*   db_write.go commitWorker:  vlog.write -> applyRequests (writeToLSM, updateHead)           *)
+(*                              -> [SyncWrites: wal.Sync] -> ack                               *)
+(*   vlog.write:                values go to the bucket's active value-log file (mmap'ed: the  *)
+(*                              bytes are durable at append); a full file is sealed and the    *)
+(*                              next one created (vlog/io.go reserve)                          *)
+(*   db.updateHead:             the manifest learns about a value-log file only when the head  *)
+(*                              moves to another file (LogValueLogHead, lazily)                *)
 (*   lsm.SetBatch:              per memtable: wal.Append (into a bufio buffer) + index insert, *)
 (*                              the batch is SPLIT when the memtable fills up                  *)
 (*   lsm.rotateLocked:          wal.SwitchSegment = flush buffer + fsync old segment           *)
 (*   levelManager.flush:        build SST, manifest LogEdits{AddFile, LogPointer}, remove WAL  *)
+(*   valueLog.rewrite (GC):     live values of a sealed file are re-inserted through the write *)
+(*                              path; a file without live values is dropped: manifest          *)
+(*                              tombstone, then unlink (removeValueLogFile)                    *)
+(*   valueLog.reconcileManifest tombstoned files and files above the newest file the manifest  *)
+(*                              knows are removed at open                                      *)
 (*   LSM.recovery:              remove segments <= log pointer, replay the others              *)
 (*                                                                                            *)
 (* Records are <<batch index, position in batch>>; a batch is a transaction (or one plain      *)
-(* write). Ghost: accepted = number of batches handed to the engine, acked = number answered.  *)
-(* Properties (RecoveryProp): C10 recovered = records of a prefix of the accepted batches,     *)
-(* no batch partially present; C09 (SyncWrites) the prefix covers every acknowledged batch.    *)
+(* write). Ghost: accepted = batches handed to the engine, acked = number answered.            *)
+(* Properties: C10 recovered = records of a prefix of the accepted batches, no batch partially *)
+(* present, every visible value pointer resolves; C09 (SyncWrites) the prefix covers every      *)
+(* acknowledged batch; C11 value-log GC, further crashes and reopening never change what a key  *)
+(* reads as.                                                                                    *)
 EXTENDS Integers, Sequences, FiniteSets, SequencesExt, FiniteSetsExt, TLC, Json
 
 CONSTANTS MaxBatches,     \* batches issued by the single client
@@ -21,11 +34,19 @@ CONSTANTS MaxBatches,     \* batches issued by the single client
           Cap,            \* records a memtable takes before it is rotated
           SyncWrites,     \* BOOLEAN
           Spill,          \* BOOLEAN: the WAL's bufio buffer may overflow into the file at any time
-          MaxHist
+          MaxHist,
+          Keys,           \* keys (naturals); key k lives in value-log bucket k % NBuckets
+          NBuckets,
+          VCap,           \* records per value-log file; 0 = values stay inline (no value log)
+          MaxGC,          \* value-log GC passes
+          MaxCrash,       \* crash / reopen cycles
+          FlushWorkers,   \* 1 as in the code; 2 = a younger sealed memtable may be installed first
+          GcSync,         \* TRUE: removeValueLogFile syncs the WAL first (fix 133a36d); FALSE: as it was
+          GcExact         \* TRUE: GC re-inserts only the record the LSM references (fix 7baa93c); FALSE: every record the LSM is not past
 
-VARIABLES phase,      \* client/commit-worker pc: "idle" | "append" | "sync" | "ack" | "crashed" | "recovered"
+VARIABLES phase,      \* "idle" | "vlog" | "append" | "head" | "sync" | "ack" | "crashed" | "recovered" | "maint"
           cur,        \* records of the batch in flight still to be appended
-          accepted,   \* sequence of batch sizes accepted so far
+          accepted,   \* sequence of batches (each a sequence of keys) accepted so far
           acked,      \* number of batches acknowledged
           seg,        \* active WAL segment id (= active memtable id)
           walFile,    \* [segment id -> sequence of records that reached the file]
@@ -34,26 +55,102 @@ VARIABLES phase,      \* client/commit-worker pc: "idle" | "append" | "sync" | "
           imm,        \* sealed memtables: sequence of [seg, recs]
           tables,     \* set of installed SSTs: [fid, recs]   (manifest + files)
           logPtr,     \* manifest log pointer (segment id)
-          recovered,  \* set of records visible after recovery
+          recovered,  \* set of record ids visible after recovery
           splitB,     \* ghost: batches cut by a durability boundary (rotation or buffer spill inside the batch)
+          held,       \* generation only: the flush of the oldest sealed memtable is stalled
+          vfile,      \* [<<bucket, fid>> -> sequence of record ids]: value-log files on disk
+          vact,       \* [bucket -> active fid]
+          mvalid,     \* manifest: value-log files recorded as valid (LogValueLogHead)
+          mdel,       \* manifest: tombstones (LogValueLogDelete)
+          logged,     \* [bucket -> fid this process logged last as head, -1 = none] (db.lastLoggedHeads)
+          gcq,        \* GC pass in progress: targets <<bucket, fid>> still to process
+          gcst,       \* step inside the current target: "scan" | "unlink"
+          gcret,      \* phase to return to when the pass is over
+          ngc, ncrash,
+          view0,      \* ghost: what every key read as when the GC pass started / after the first recovery
           hist
-vars == <<phase, cur, accepted, acked, seg, walFile, walBuf, mem, imm, tables, logPtr, recovered, splitB, hist>>
-view == <<phase, cur, accepted, acked, seg, walFile, walBuf, mem, imm, tables, logPtr, recovered, splitB>>
+vars == <<phase, cur, accepted, acked, seg, walFile, walBuf, mem, imm, tables, logPtr, recovered, splitB, held,
+          vfile, vact, mvalid, mdel, logged, gcq, gcst, gcret, ngc, ncrash, view0, hist>>
+view == <<phase, cur, accepted, acked, seg, walFile, walBuf, mem, imm, tables, logPtr, recovered, splitB, held,
+          vfile, vact, mvalid, mdel, logged, gcq, gcst, gcret, ngc, ncrash, view0>>
+lsmVars  == <<seg, walFile, walBuf, mem, imm, tables, logPtr>>
+vlogVars == <<vfile, vact, mvalid, mdel, logged>>
+gcVars   == <<gcq, gcst, gcret, ngc, view0>>
 
 Log(r) == hist' = IF Len(hist) < MaxHist THEN Append(hist, r) ELSE hist
-RecsOf(b, n) == [i \in 1..n |-> <<b, i>>]
+Buckets == 0..(NBuckets - 1)
+Bucket(k) == k % NBuckets
+\* a record: identity <<b, j>>, key, and where its value lives (f = -1: inline)
+Rec(b, j, k) == [b |-> b, j |-> j, k |-> k, f |-> -1, o |-> 0]
+Id(r) == <<r.b, r.j>>
+RecsOf(b, ks) == [i \in 1..Len(ks) |-> Rec(b, i, ks[i])]
+IdsOf(b) == {<<b, i>> : i \in 1..Len(accepted[b])}
+KeyOf(id) == accepted[id[1]][id[2]]
 
 Init == /\ phase = "idle" /\ cur = <<>> /\ accepted = <<>> /\ acked = 0 /\ seg = 1
         /\ walFile = [s \in {1} |-> <<>>] /\ walBuf = <<>> /\ mem = <<>> /\ imm = <<>>
-        /\ tables = {} /\ logPtr = 0 /\ recovered = {} /\ splitB = {} /\ hist = <<>>
+        /\ tables = {} /\ logPtr = 0 /\ recovered = {} /\ splitB = {} /\ held = FALSE
+        /\ vfile = [t \in {<<bk, 0>> : bk \in Buckets} |-> <<>>] /\ vact = [bk \in Buckets |-> 0]
+        /\ mvalid = {} /\ mdel = {} /\ logged = [bk \in Buckets |-> -1]
+        /\ gcq = <<>> /\ gcst = "scan" /\ gcret = "idle" /\ ngc = 0 /\ ncrash = 0
+        /\ view0 = [k \in Keys |-> <<>>] /\ hist = <<>>
 
-\* the client hands a batch to the commit pipeline
-Accept(n) == /\ phase = "idle" /\ Len(accepted) < MaxBatches
-             /\ accepted' = Append(accepted, n)
-             /\ cur' = RecsOf(Len(accepted) + 1, n)
+\* ------------------------------------------------------------------ reads
+\* plain API: every write of a key carries the same version, so the newest source holding the key wins
+\* (active memtable, sealed memtables newest first, tables by descending id); inside a source the last record
+Sources == <<mem>> \o [i \in 1..Len(imm) |-> imm[Len(imm) + 1 - i].recs]
+           \o [i \in 1..Cardinality(tables) |-> SetToSortSeq(tables, LAMBDA a, b : a.fid > b.fid)[i].recs]
+LastOf(rs, k) == LET is == {i \in 1..Len(rs) : rs[i].k = k} IN IF is = {} THEN <<>> ELSE <<rs[Max(is)]>>
+Look(srcs, k) == LET hit == {i \in 1..Len(srcs) : LastOf(srcs[i], k) # <<>>}
+                 IN IF hit = {} THEN <<>> ELSE LastOf(srcs[Min(hit)], k)
+Resolves(r) == r.f = -1 \/ (<<Bucket(r.k), r.f>> \in DOMAIN vfile /\ r.o <= Len(vfile[<<Bucket(r.k), r.f>>])
+                            /\ vfile[<<Bucket(r.k), r.f>>][r.o] = Id(r))
+\* what key k reads as: <<>> absent, the identity of the visible write, or "ERR" (pointer into nothing)
+Read(srcs, k) == LET h == Look(srcs, k) IN IF h = <<>> THEN <<>> ELSE IF Resolves(h[1]) THEN Id(h[1]) ELSE <<"ERR">>
+View == [k \in Keys |-> Read(Sources, k)]
+
+\* ------------------------------------------------------------------ commit pipeline
+\* without a value log the keys play no role: one canonical choice keeps the state space small
+KeySeqs(n) == IF VCap = 0 THEN {[i \in 1..n |-> SetToSortSeq(Keys, LAMBDA a, b : a < b)[i]]}
+              ELSE {s \in [1..n -> Keys] : \A i, j \in 1..n : i # j => s[i] # s[j]}
+Accept(ks) == /\ phase = "idle" /\ gcq = <<>> /\ Len(accepted) < MaxBatches
+              /\ accepted' = Append(accepted, ks)
+              /\ cur' = RecsOf(Len(accepted) + 1, ks)
+              /\ phase' = IF VCap > 0 THEN "vlog" ELSE "append"
+              /\ Log([op |-> "Write", n |-> Len(ks), ks |-> ks])
+              /\ UNCHANGED <<acked, recovered, splitB, held, ncrash>> /\ UNCHANGED lsmVars /\ UNCHANGED vlogVars /\ UNCHANGED gcVars
+
+\* vlog.write for a request: per bucket the values are reserved together; when they do not fit the active
+\* file is sealed and the next one created (vlog/io.go reserve; more values than a file holds go one by one)
+RECURSIVE PlaceOne(_, _, _, _)
+PlaceOne(rs, is, vf, va) ==     \* rs: records; is: positions (ascending) still to place; one at a time
+    IF is = <<>> THEN [rs |-> rs, vf |-> vf, va |-> va]
+    ELSE LET i == Head(is) bk == Bucket(rs[i].k)
+             full == Len(vf[<<bk, va[bk]>>]) >= VCap
+             fid == IF full THEN va[bk] + 1 ELSE va[bk]
+             vf1 == IF full THEN (<<bk, fid>> :> <<>>) @@ vf ELSE vf
+             vf2 == [vf1 EXCEPT ![<<bk, fid>>] = Append(@, Id(rs[i]))]
+         IN PlaceOne([rs EXCEPT ![i].f = fid, ![i].o = Len(vf2[<<bk, fid>>])], Tail(is), vf2, [va EXCEPT ![bk] = fid])
+RECURSIVE PlaceAll(_, _, _, _)
+PlaceAll(rs, bks, vf, va) ==    \* bucket after bucket
+    IF bks = <<>> THEN [rs |-> rs, vf |-> vf, va |-> va]
+    ELSE LET bk == Head(bks)
+             is == SetToSortSeq({i \in 1..Len(rs) : Bucket(rs[i].k) = bk}, LAMBDA a, b : a < b)
+             m  == Len(is)
+             \* the group does not fit but would fit an empty file: seal first
+             seal == m > 0 /\ m <= VCap /\ Len(vf[<<bk, va[bk]>>]) + m > VCap
+             vf1 == IF seal THEN (<<bk, va[bk] + 1>> :> <<>>) @@ vf ELSE vf
+             va1 == IF seal THEN [va EXCEPT ![bk] = @ + 1] ELSE va
+             res == PlaceOne(rs, is, vf1, va1)
+         IN PlaceAll(res.rs, Tail(bks), res.vf, res.va)
+BucketSeq == SetToSortSeq(Buckets, LAMBDA a, b : a < b)
+
+VlogWrite == /\ phase = "vlog"
+             /\ LET res == PlaceAll(cur, BucketSeq, vfile, vact)
+                IN cur' = res.rs /\ vfile' = res.vf /\ vact' = res.va
              /\ phase' = "append"
-             /\ Log([op |-> "Write", n |-> n])
-             /\ UNCHANGED <<acked, seg, walFile, walBuf, mem, imm, tables, logPtr, recovered, splitB>>
+             /\ UNCHANGED <<accepted, acked, recovered, splitB, held, mvalid, mdel, logged, ncrash, hist>>
+             /\ UNCHANGED lsmVars /\ UNCHANGED gcVars
 
 \* rotateLocked + SwitchSegment: the old segment's buffer is flushed and fsynced
 DoRotate == /\ walFile' = [s \in (DOMAIN walFile) \cup {seg + 1} |->
@@ -69,90 +166,195 @@ AppendPiece ==
     /\ phase = "append" /\ cur # <<>>
     /\ IF Len(mem) >= Cap
        THEN /\ DoRotate /\ UNCHANGED <<cur, phase>>
-            /\ splitB' = IF cur[1][2] > 1 THEN splitB \cup {cur[1][1]} ELSE splitB
+            /\ splitB' = IF cur[1].j > 1 THEN splitB \cup {cur[1].b} ELSE splitB
        ELSE LET k == Min({Len(cur), Cap - Len(mem)})
             IN /\ walBuf' = walBuf \o SubSeq(cur, 1, k)
                /\ mem' = mem \o SubSeq(cur, 1, k)
                /\ cur' = SubSeq(cur, k + 1, Len(cur))
-               /\ phase' = IF k = Len(cur) THEN (IF SyncWrites THEN "sync" ELSE "ack") ELSE "append"
+               /\ phase' = IF k = Len(cur) THEN "head" ELSE "append"
                /\ UNCHANGED <<seg, walFile, imm, splitB>>
-    /\ UNCHANGED <<accepted, acked, tables, logPtr, recovered, hist>>
+    /\ UNCHANGED <<accepted, acked, tables, logPtr, recovered, held, ncrash, hist>> /\ UNCHANGED vlogVars /\ UNCHANGED gcVars
+
+\* db.updateHead after writeToLSM: the head is logged only when it moved to another file
+HeadsMoved(va, lg) == {bk \in Buckets : VCap > 0 /\ lg[bk] # va[bk] /\ \E t \in DOMAIN vfile : t[1] = bk /\ vfile[t] # <<>>}
+UpdateHead == /\ phase = "head"
+              /\ mvalid' = mvalid \cup {<<bk, vact[bk]>> : bk \in HeadsMoved(vact, logged)}
+              /\ logged' = [bk \in Buckets |-> IF bk \in HeadsMoved(vact, logged) THEN vact[bk] ELSE logged[bk]]
+              /\ phase' = IF SyncWrites THEN "sync" ELSE "ack"
+              /\ UNCHANGED <<cur, accepted, acked, recovered, splitB, held, vfile, vact, mdel, ncrash, hist>>
+              /\ UNCHANGED lsmVars /\ UNCHANGED gcVars
 
 \* wal.Sync: flush the buffer and fsync the ACTIVE segment
 SyncWal == /\ phase = "sync"
            /\ walFile' = [walFile EXCEPT ![seg] = @ \o walBuf] /\ walBuf' = <<>>
            /\ phase' = "ack"
-           /\ UNCHANGED <<cur, accepted, acked, seg, mem, imm, tables, logPtr, recovered, splitB, hist>>
+           /\ UNCHANGED <<cur, accepted, acked, seg, mem, imm, tables, logPtr, recovered, splitB, held, ncrash, hist>>
+           /\ UNCHANGED vlogVars /\ UNCHANGED gcVars
 
 Ack == /\ phase = "ack" /\ acked' = acked + 1 /\ phase' = "idle"
-       /\ UNCHANGED <<cur, accepted, seg, walFile, walBuf, mem, imm, tables, logPtr, recovered, splitB, hist>>
+       /\ UNCHANGED <<cur, accepted, recovered, splitB, held, ncrash, hist>> /\ UNCHANGED lsmVars /\ UNCHANGED vlogVars /\ UNCHANGED gcVars
 
 \* bufio overflow: a prefix of the buffer reaches the file without any sync call
-SpillBuf == /\ Spill /\ walBuf # <<>> /\ phase \in {"idle", "append", "sync", "ack"}
+SpillBuf == /\ Spill /\ walBuf # <<>> /\ phase \in {"idle", "vlog", "append", "head", "sync", "ack", "maint"}
             /\ \E k \in 1..Len(walBuf) :
                  /\ walFile' = [walFile EXCEPT ![seg] = @ \o SubSeq(walBuf, 1, k)]
                  /\ walBuf' = SubSeq(walBuf, k + 1, Len(walBuf))
-                 /\ LET b == walBuf[k][1]
-                        more == (k < Len(walBuf) /\ walBuf[k + 1][1] = b) \/ (cur # <<>> /\ cur[1][1] = b)
+                 /\ LET b == walBuf[k].b
+                        more == (k < Len(walBuf) /\ walBuf[k + 1].b = b) \/ (cur # <<>> /\ cur[1].b = b)
                     IN splitB' = IF more THEN splitB \cup {b} ELSE splitB
-            /\ UNCHANGED <<phase, cur, accepted, acked, seg, mem, imm, tables, logPtr, recovered, hist>>
+            /\ UNCHANGED <<phase, cur, accepted, acked, seg, mem, imm, tables, logPtr, recovered, held, ncrash, hist>>
+            /\ UNCHANGED vlogVars /\ UNCHANGED gcVars
 
+Running == phase \notin {"crashed", "recovered"}
 \* explicit rotation by the driver (only between operations)
-Rotate == /\ phase = "idle" /\ mem # <<>> /\ DoRotate
+Rotate == /\ phase = "idle" /\ gcq = <<>> /\ mem # <<>> /\ DoRotate
           /\ Log([op |-> "Rotate"])
-          /\ UNCHANGED <<phase, cur, accepted, acked, tables, logPtr, recovered, splitB>>
+          /\ UNCHANGED <<phase, cur, accepted, acked, tables, logPtr, recovered, splitB, held, ncrash>> /\ UNCHANGED vlogVars /\ UNCHANGED gcVars
 
-\* levelManager.flush of the oldest sealed memtable (three file-system visible steps collapsed
-\* in the order the code performs them: SST + manifest edit first, WAL removal afterwards)
-FlushInstall == /\ imm # <<>> /\ phase # "crashed" /\ phase # "recovered"
-                /\ tables' = tables \cup {[fid |-> Head(imm).seg, recs |-> Head(imm).recs]}
-                /\ logPtr' = Head(imm).seg
-                /\ imm' = Tail(imm)
+\* generation only: the driver stalls the flush of the next memtable to be sealed / lets it go again
+HoldFlush == /\ MaxHist > 0 /\ phase = "idle" /\ gcq = <<>> /\ ~held /\ imm = <<>> /\ held' = TRUE
+             /\ Log([op |-> "HoldFlush"])
+             /\ UNCHANGED <<phase, cur, accepted, acked, recovered, splitB, ncrash>> /\ UNCHANGED lsmVars /\ UNCHANGED vlogVars /\ UNCHANGED gcVars
+ReleaseFlush == /\ MaxHist > 0 /\ phase = "idle" /\ gcq = <<>> /\ held /\ held' = FALSE
+                /\ Log([op |-> "ReleaseFlush"])
+                /\ UNCHANGED <<phase, cur, accepted, acked, recovered, splitB, ncrash>> /\ UNCHANGED lsmVars /\ UNCHANGED vlogVars /\ UNCHANGED gcVars
+
+\* levelManager.flush of a sealed memtable (three file-system visible steps collapsed in the order the
+\* code performs them: SST + manifest edit first, WAL removal afterwards). The single flush worker takes
+\* the memtables in sealing order; recovery relies on that (it drops every segment <= the log pointer).
+FlushInstall == /\ imm # <<>> /\ Running /\ ~held
+                /\ \E i \in 1..Min({FlushWorkers, Len(imm)}) :
+                     /\ tables' = tables \cup {[fid |-> imm[i].seg, recs |-> imm[i].recs]}
+                     /\ logPtr' = imm[i].seg
+                     /\ imm' = SubSeq(imm, 1, i - 1) \o SubSeq(imm, i + 1, Len(imm))
                 /\ Log([op |-> "FlushWait"])
-                /\ UNCHANGED <<phase, cur, accepted, acked, seg, walFile, walBuf, mem, recovered, splitB>>
-RemoveWal == /\ phase # "crashed" /\ phase # "recovered"
+                /\ UNCHANGED <<phase, cur, accepted, acked, seg, walFile, walBuf, mem, recovered, splitB, held, ncrash>>
+                /\ UNCHANGED vlogVars /\ UNCHANGED gcVars
+RemoveWal == /\ Running
              /\ \E s \in DOMAIN walFile : s <= logPtr /\ s # seg
                   /\ walFile' = [t \in (DOMAIN walFile) \ {s} |-> walFile[t]]
-             /\ UNCHANGED <<phase, cur, accepted, acked, seg, walBuf, mem, imm, tables, logPtr, recovered, splitB, hist>>
+             /\ UNCHANGED <<phase, cur, accepted, acked, seg, walBuf, mem, imm, tables, logPtr, recovered, splitB, held, ncrash, hist>>
+             /\ UNCHANGED vlogVars /\ UNCHANGED gcVars
 
+\* ------------------------------------------------------------------ value-log GC (one pass = every sealed file)
+Sealed == {t \in DOMAIN vfile : t[2] < vact[t[1]]}
+StartGC == /\ phase \in {"idle", "maint"} /\ gcq = <<>> /\ VCap > 0 /\ ngc < MaxGC /\ Sealed # {}
+           /\ gcq' = SetToSortSeq(Sealed, LAMBDA a, b : a[1] < b[1] \/ (a[1] = b[1] /\ a[2] < b[2]))
+           /\ gcst' = "scan" /\ gcret' = phase /\ ngc' = ngc + 1
+           /\ view0' = IF phase = "idle" THEN View ELSE view0
+           /\ Log([op |-> "GC"])
+           /\ UNCHANGED <<phase, cur, accepted, acked, recovered, splitB, held, ncrash>> /\ UNCHANGED lsmVars /\ UNCHANGED vlogVars
+\* rewrite.process: is the record at position o of file t live?
+Live(t, o) == LET h == Look(Sources, KeyOf(vfile[t][o])) IN
+              /\ h # <<>> /\ h[1].f # -1
+              /\ ~(h[1].f > t[2] \/ (h[1].f = t[2] /\ h[1].o > o))                 \* the LSM is not past it
+              /\ (GcExact => (h[1].f = t[2] /\ h[1].o = o))                        \* and (fix 7baa93c) not before it
+GCScan == /\ gcq # <<>> /\ gcst = "scan" /\ Running
+          /\ LET t == Head(gcq)
+                 os == SetToSortSeq({o \in 1..Len(vfile[t]) : Live(t, o)}, LAMBDA a, b : a < b)
+                 \* the re-inserted records keep key and identity; their values go to the active file
+                 rs == [i \in 1..Len(os) |-> [Rec(vfile[t][os[i]][1], vfile[t][os[i]][2], KeyOf(vfile[t][os[i]])) EXCEPT !.f = 0]]
+                 res == PlaceAll(rs, BucketSeq, vfile, vact)
+             IN IF os = <<>>
+                THEN \* nothing live: the file is dropped; first the WAL is made durable (GcSync), then the tombstone
+                     /\ gcst' = "unlink"
+                     /\ mdel' = mdel \cup {t} /\ mvalid' = mvalid \ {t}
+                     /\ IF GcSync THEN walFile' = [walFile EXCEPT ![seg] = @ \o walBuf] /\ walBuf' = <<>>
+                                  ELSE UNCHANGED <<walFile, walBuf>>
+                     /\ UNCHANGED <<mem, vfile, vact, logged, gcq>>
+                ELSE \* batchSet: value log, memtable + WAL buffer, head, sync when SyncWrites; the pass then goes on
+                     \* to the next file WITHOUT dropping this one (the code's check after the rewrite fails)
+                     /\ vfile' = res.vf /\ vact' = res.va
+                     /\ mem' = mem \o res.rs
+                     /\ IF SyncWrites THEN walFile' = [walFile EXCEPT ![seg] = @ \o walBuf \o res.rs] /\ walBuf' = <<>>
+                                      ELSE walBuf' = walBuf \o res.rs /\ UNCHANGED walFile
+                     /\ mvalid' = mvalid \cup {<<bk, res.va[bk]>> : bk \in HeadsMoved(res.va, logged)}
+                     /\ logged' = [bk \in Buckets |-> IF bk \in HeadsMoved(res.va, logged) THEN res.va[bk] ELSE logged[bk]]
+                     /\ gcq' = Tail(gcq) /\ UNCHANGED <<gcst, mdel>>
+          /\ UNCHANGED <<phase, cur, accepted, acked, seg, imm, tables, logPtr, recovered, splitB, held, gcret, ngc, ncrash, view0, hist>>
+GCUnlink == /\ gcq # <<>> /\ gcst = "unlink" /\ Running
+            /\ vfile' = [t \in (DOMAIN vfile) \ {Head(gcq)} |-> vfile[t]]
+            /\ gcq' = Tail(gcq) /\ gcst' = "scan"
+            /\ UNCHANGED <<phase, cur, accepted, acked, recovered, splitB, held, vact, mvalid, mdel, logged, gcret, ngc, ncrash, view0, hist>>
+            /\ UNCHANGED lsmVars
+
+\* new client writes to OTHER keys fill and seal the active file of a bucket (maintenance phase of the driver)
+SealBucket(bk) == /\ phase = "maint" /\ gcq = <<>> /\ VCap > 0 /\ vfile[<<bk, vact[bk]>>] # <<>>
+                  /\ vfile' = (<<bk, vact[bk] + 1>> :> <<>>) @@ vfile
+                  /\ vact' = [vact EXCEPT ![bk] = @ + 1]
+                  /\ mvalid' = mvalid \cup {<<bk, vact[bk] + 1>>} /\ logged' = [logged EXCEPT ![bk] = vact[bk] + 1]
+                  /\ UNCHANGED <<phase, cur, accepted, acked, recovered, splitB, held, mdel, ncrash, hist>> /\ UNCHANGED lsmVars /\ UNCHANGED gcVars
+
+\* ------------------------------------------------------------------ crash and recovery
 Crash == /\ MaxHist = 0      \* generation mode (MaxHist > 0) produces workloads; crash points are enumerated on the code
-         /\ phase \notin {"crashed", "recovered"}
+         /\ Running /\ ncrash < MaxCrash
          /\ phase' = "crashed" /\ walBuf' = <<>> /\ mem' = <<>> /\ imm' = <<>> /\ cur' = <<>>
-         /\ UNCHANGED <<accepted, acked, seg, walFile, tables, logPtr, recovered, splitB, hist>>
+         /\ gcq' = <<>> /\ gcst' = "scan" /\ ncrash' = ncrash + 1
+         /\ UNCHANGED <<accepted, acked, seg, walFile, tables, logPtr, recovered, splitB, held, gcret, ngc, view0, hist>>
+         /\ UNCHANGED vlogVars
 
-\* LSM.recovery: segments <= log pointer are dropped, the rest replayed
+\* valueLog.reconcileManifest: tombstoned files go; so do files above the newest one the manifest knows
+Reconciled == LET top(bk) == Max({t[2] : t \in {x \in mvalid : x[1] = bk}})
+                  gone == {t \in DOMAIN vfile : t \in mdel \/ ({x \in mvalid : x[1] = t[1]} # {} /\ t[2] > top(t[1]))}
+              IN [t \in (DOMAIN vfile) \ gone |-> vfile[t]]
+\* LSM.recovery: segments <= log pointer are dropped, the rest replayed into one sealed memtable each
 Recover == /\ phase = "crashed" /\ phase' = "recovered"
-           /\ recovered' = UNION {Range(t.recs) : t \in tables}
-                           \cup UNION {Range(walFile[s]) : s \in {x \in DOMAIN walFile : x > logPtr}}
-           /\ UNCHANGED <<cur, accepted, acked, seg, walFile, walBuf, mem, imm, tables, logPtr, splitB, hist>>
+           /\ LET live == {x \in DOMAIN walFile : x > logPtr}
+                  ss == SetToSortSeq(live, LAMBDA a, b : a < b)
+                  vf == Reconciled
+              IN /\ recovered' = UNION {{Id(r) : r \in Range(t.recs)} : t \in tables}
+                                 \cup UNION {{Id(r) : r \in Range(walFile[s])} : s \in live}
+                 /\ imm' = [i \in 1..Len(ss) |-> [seg |-> ss[i], recs |-> walFile[ss[i]]]]
+                 /\ walFile' = [s \in live \cup {seg + 1} |-> IF s = seg + 1 THEN <<>> ELSE walFile[s]]
+                 /\ seg' = seg + 1
+                 \* the highest file of a bucket becomes its active file again
+                 /\ vfile' = [t \in (DOMAIN vf) \cup {<<bk, 0>> : bk \in {b \in Buckets : {x \in DOMAIN vf : x[1] = b} = {}}} |->
+                                 IF t \in DOMAIN vf THEN vf[t] ELSE <<>>]
+                 /\ vact' = [bk \in Buckets |-> LET fs == {x[2] : x \in {y \in DOMAIN vf : y[1] = bk}} IN IF fs = {} THEN 0 ELSE Max(fs)]
+                 /\ logged' = [bk \in Buckets |-> LET fs == {x[2] : x \in {y \in mvalid : y[1] = bk}} IN IF fs = {} THEN -1 ELSE Max(fs)]
+           /\ UNCHANGED <<cur, accepted, acked, walBuf, mem, tables, logPtr, splitB, held, mvalid, mdel, ncrash, hist>> /\ UNCHANGED gcVars
+\* the recovered database is then only maintained (flush, GC, sealing by unrelated writes, further crashes)
+Resume == /\ phase = "recovered" /\ phase' = "maint" /\ (VCap > 0 \/ MaxCrash > 1)
+          /\ view0' = IF ncrash = 1 THEN View ELSE view0
+          /\ UNCHANGED <<cur, accepted, acked, recovered, splitB, held, gcq, gcst, gcret, ngc, ncrash, hist>> /\ UNCHANGED lsmVars /\ UNCHANGED vlogVars
 
-\* compaction, value-log GC and manifest rewrite reorganise files without changing the record set;
-\* their crash points are enumerated on the real code (every file operation), here they are no-ops
-Maint(kind) == /\ phase = "idle" /\ MaxHist > 0 /\ Log([op |-> kind])
-               /\ UNCHANGED <<phase, cur, accepted, acked, seg, walFile, walBuf, mem, imm, tables, logPtr, recovered, splitB>>
+\* compaction and manifest rewrite reorganise files without changing the record set; their crash points are
+\* enumerated on the real code (every file operation), here they are no-ops
+Maint(kind) == /\ phase = "idle" /\ gcq = <<>> /\ MaxHist > 0 /\ Log([op |-> kind])
+               /\ UNCHANGED <<phase, cur, accepted, acked, recovered, splitB, held, ncrash>> /\ UNCHANGED lsmVars /\ UNCHANGED vlogVars /\ UNCHANGED gcVars
 
-Next == \/ \E n \in BatchSizes : Accept(n)
-        \/ \E kind \in {"CompactL0", "IngestDrain", "GC"} : Maint(kind)
-        \/ AppendPiece \/ SyncWal \/ Ack \/ SpillBuf \/ Rotate \/ FlushInstall \/ RemoveWal \/ Crash \/ Recover
+Next == \/ \E n \in BatchSizes : \E ks \in KeySeqs(n) : Accept(ks)
+        \/ \E kind \in {"CompactL0", "IngestDrain"} : Maint(kind)
+        \/ VlogWrite \/ AppendPiece \/ UpdateHead \/ SyncWal \/ Ack \/ SpillBuf \/ Rotate \/ HoldFlush \/ ReleaseFlush
+        \/ FlushInstall \/ RemoveWal \/ StartGC \/ GCScan \/ GCUnlink \/ \E bk \in Buckets : SealBucket(bk)
+        \/ Crash \/ Recover \/ Resume
 Spec == Init /\ [][Next]_vars
 
 \* ------------------------------------------------------------------ properties
-AllRecs(p) == UNION {Range(RecsOf(b, accepted[b])) : b \in 1..p}
+AllRecs(p) == UNION {IdsOf(b) : b \in 1..p}
+First == phase = "recovered" /\ ncrash = 1
 \* record-level prefix: what the WAL design does guarantee
-RecordPrefix == phase = "recovered" =>
-    \A r \in recovered : \A b \in 1..(r[1] - 1) : Range(RecsOf(b, accepted[b])) \subseteq recovered
+RecordPrefix == First => \A r \in recovered : \A b \in 1..(r[1] - 1) : IdsOf(b) \subseteq recovered
 \* C10: a prefix of whole batches
-BatchPrefix == phase = "recovered" => \E p \in 0..Len(accepted) : recovered = AllRecs(p)
+BatchPrefix == First => \E p \in 0..Len(accepted) : recovered = AllRecs(p)
 \* C09: with SyncWrites every acknowledged batch is inside the prefix
-AckedDurable == (phase = "recovered" /\ SyncWrites) => AllRecs(acked) \subseteq recovered
+AckedDurable == (First /\ SyncWrites) => AllRecs(acked) \subseteq recovered
 \* witness of the recorded deviation (finding C10-batch-split): some batch's records were appended
 \* to two different WAL segments because the memtable filled up in the middle of the batch
-Partial == {b \in 1..Len(accepted) : LET rs == Range(RecsOf(b, accepted[b])) IN
-                                         rs \cap recovered # {} /\ ~(rs \subseteq recovered)}
+Partial == {b \in 1..Len(accepted) : IdsOf(b) \cap recovered # {} /\ ~(IdsOf(b) \subseteq recovered)}
 \* gating invariant: the only partially recovered batches are those cut by a durability boundary
 \* (recorded deviation C10-batch-split), and everything else is a prefix
-BatchPrefixModuloKnown == phase = "recovered" => (Partial \subseteq splitB /\ (Partial = {} => BatchPrefix))
-NoLossOfFlushed == \A t \in tables : \A r \in Range(t.recs) : r[1] \in 1..Len(accepted)
+BatchPrefixModuloKnown == First => (Partial \subseteq splitB /\ (Partial = {} => BatchPrefix))
+NoLossOfFlushed == \A t \in tables : \A r \in Range(t.recs) : r.b \in 1..Len(accepted)
+\* C10 "every key that reads as present has a readable value": whenever the database is open, no key reads
+\* through a pointer into a missing file (before the first crash, after every recovery, during maintenance)
+\* -- except for a batch cut by a durability boundary, whose durable part may point into a file the manifest
+\* did not know yet (same recorded deviation)
+Dangling == {k \in Keys : Read(Sources, k) = <<"ERR">>}
+PointersResolve == (phase # "crashed") => \A k \in Dangling : Look(Sources, k)[1].b \in splitB
+PointersResolveStrict == (phase # "crashed") => Dangling = {}
+\* C11: a GC pass, maintenance of the recovered database, further crashes and reopening leave every key as it read
+ContentsStable == ((gcq # <<>> /\ phase # "crashed") \/ phase = "maint" \/ (phase = "recovered" /\ ncrash > 1)) => View = view0
 
 EmitHist == (Len(hist) = MaxHist) => PrintT(<<"SCHED", ToJson(hist)>>)
 =============================================================================
